@@ -2,10 +2,12 @@
 C06 for the FGA instance (`luRule`, `luSys`, `listUsers` of `Model/ListUsers.lean`):
 
   * `luRule_sendsOnly`   what the expansion leaves of the FGA rules write: the self userset `object#relation`
-                         when type **and relation** of the sub-problem equal the filter, and directly assigned
-                         objects / wildcards whose **type** equals the filter type — the relation of the filter
-                         is not looked at (finding LU-D), which is why `EntryOK` has two disjuncts;
+                         when type and relation of the sub-problem equal the filter, and — only for a filter
+                         without relation — directly assigned objects / wildcards of the filter type (`EntryOK`);
   * `lu_filter_fga`      hence every user returned by any schedule satisfies `EntryOK`;
+  * `lu_filter_full`     the full filter statement (`LU_Filter_Full`: type and relation of every returned user
+                         equal the filter), given the string fact that `object#relation` keys split back into
+                         their parts (finding LU-D is fixed);
   * `luSys_stage1`       worlds without a wildcard tuple of the filter type (and without empty intersections)
                          are in the wildcard-free stage;
   * `lu_exact1_fga`      so `lu_exact1` applies to them;
@@ -25,7 +27,8 @@ open OpenFGAVerif.Vocab OpenFGAVerif.CheckV1 OpenFGAVerif.BoolSys
 
 /-- what an entry of an answer can be -/
 def EntryOK (f : Filter) (k : String) : Prop :=
-  (∃ n : Node, k = usersetKey n ∧ typeOf n.1 = f.typ ∧ n.2 = f.rel) ∨ (isUserset k = false ∧ userType k = f.typ)
+  (∃ n : Node, k = usersetKey n ∧ typeOf n.1 = f.typ ∧ n.2 = f.rel) ∨
+  (f.rel = "" ∧ isUserset k = false ∧ userType k = f.typ)
 
 theorem directL_sendsOnly (w : World) (f : Filter) (o r : String) :
     SendsOnly (N := Node) (EntryOK f) (directL w f o r) := by
@@ -41,20 +44,12 @@ theorem directL_sendsOnly (w : World) (f : Filter) (o r : String) :
     by_cases hu : isUserset t.user = true
     · rw [if_pos hu]; exact .node _
     · rw [if_neg hu]
-      by_cases ht : userType t.user = f.typ
-      · rw [if_pos ht]
-        have hok : EntryOK f t.user := .inr ⟨by simpa using hu, ht⟩
-        by_cases hr : f.rel = ""
-        · rw [if_pos hr]
-          exact .send _ (fun k hk => by rw [List.mem_singleton.mp hk]; exact hok)
-        · rw [if_neg hr]
-          refine .bag _ _ ?_
-          intro e' he'
-          simp only [List.mem_cons, List.not_mem_nil, or_false] at he'
-          rcases he' with rfl | rfl
-          · exact .send _ (fun k hk => by rw [List.mem_singleton.mp hk]; exact hok)
-          · exact .note _
-      · rw [if_neg ht]; exact .send _ (fun k hk => by cases hk)
+      by_cases hc : (decide (userType t.user = f.typ) && decide (f.rel = "")) = true
+      · rw [if_pos hc]
+        simp only [Bool.and_eq_true, decide_eq_true_eq] at hc
+        have hok : EntryOK f t.user := .inr ⟨hc.2, by simpa using hu, hc.1⟩
+        exact .send _ (fun k hk => by rw [List.mem_singleton.mp hk]; exact hok)
+      · rw [if_neg hc]; exact .send _ (fun k hk => by cases hk)
 
 theorem ttuL_sendsOnly (w : World) (f : Filter) (o ts cr : String) :
     SendsOnly (N := Node) (EntryOK f) (ttuL w o ts cr) := by
@@ -116,26 +111,23 @@ theorem lu_filter_fga (w : World) (f : Filter) (limit : Nat) (root : Node) (a : 
     (h : ListUsersRel (luSys w f) limit root a) : ∀ k ∈ a.users, EntryOK f k :=
   lu_filter (luSys w f) limit (EntryOK f) (luRule_sendsOnly w f) root a h
 
-/-- the full statement: every returned user matches the filter in type and relation
-(`userRel k = f.rel`); false of the code for `type#relation` filters, see `directL_ignores_filter_relation` -/
+/-- the full statement: every returned user matches the filter in type and relation.  `hkey` is the string
+fact (C29's domain) that a key `object#relation` built for a sub-problem matching the filter splits back into
+that type and relation. -/
 def LU_Filter_Full : Prop :=
   ∀ (w : World) (f : Filter) (limit : Nat) (root : Node) (a : Answer String),
+    (∀ n : Node, typeOf n.1 = f.typ → n.2 = f.rel →
+      userType (usersetKey n) = f.typ ∧ userRel (usersetKey n) = f.rel) →
     ListUsersRel (luSys w f) limit root a → ∀ k ∈ a.users, userType k = f.typ ∧ userRel k = f.rel
 
-/-- LU-D in the rules: a directly assigned object or wildcard of the filter type whose condition is met is
-written to the channel whatever the relation of the filter is -/
-theorem directL_ignores_filter_relation (w : World) (f : Filter) (o r : String) (t : Tuple)
-    (ht : (t, CondVal.tt) ∈ readTuples w o r) (hu : isUserset t.user = false) (hty : userType t.user = f.typ) :
-    ∃ es, directL w f o r = LExpr.bag true es ∧
-      (LExpr.send [t.user] ∈ es ∨ LExpr.bag false [LExpr.send [t.user], LExpr.note "filter-rel"] ∈ es) := by
-  refine ⟨_, rfl, ?_⟩
-  by_cases hr : f.rel = ""
-  · left
-    refine List.mem_map.mpr ⟨(t, .tt), ht, ?_⟩
-    simp [hu, hty, hr]
-  · right
-    refine List.mem_map.mpr ⟨(t, .tt), ht, ?_⟩
-    simp [hu, hty, hr]
+/-- **lu_filter at full strength** (LU-D fixed): every schedule, every world -/
+theorem lu_filter_full : LU_Filter_Full := by
+  intro w f limit root a hkey h k hk
+  rcases lu_filter_fga w f limit root a h k hk with ⟨n, rfl, h1, h2⟩ | ⟨hr, hu, ht⟩
+  · exact hkey n h1 h2
+  · refine ⟨ht, ?_⟩
+    rw [hr]
+    simpa [isUserset, userRel] using hu
 
 /-! ### the wildcard-free stage -/
 
@@ -185,22 +177,13 @@ theorem directL_stage1 (w : World) (f : Filter) (hw : WildFree w f) (o r : Strin
     by_cases hu : isUserset t.user = true
     · rw [if_pos hu]; exact .node _
     · rw [if_neg hu]
-      by_cases ht : userType t.user = f.typ
-      · rw [if_pos ht]
-        obtain ⟨h1, h2⟩ := hw.tuples t (mem_readTuples htc) (by simpa using hu) ht
-        have hs : Stage1E (luSys w f) (.send [t.user]) :=
-          .send _ (by simp only [luSys, List.mem_singleton]; exact fun h => h1 h.symm)
-            (fun k hk => by rw [List.mem_singleton.mp hk]; exact h2)
-        by_cases hr : f.rel = ""
-        · rw [if_pos hr]; exact hs
-        · rw [if_neg hr]
-          refine .bag _ _ ?_
-          intro e' he'
-          simp only [List.mem_cons, List.not_mem_nil, or_false] at he'
-          rcases he' with rfl | rfl
-          · exact hs
-          · exact .note _
-      · rw [if_neg ht]; exact stage1_sendNil
+      by_cases hc : (decide (userType t.user = f.typ) && decide (f.rel = "")) = true
+      · rw [if_pos hc]
+        simp only [Bool.and_eq_true, decide_eq_true_eq] at hc
+        obtain ⟨h1, h2⟩ := hw.tuples t (mem_readTuples htc) (by simpa using hu) hc.1
+        exact .send _ (by simp only [luSys, List.mem_singleton]; exact fun h => h1 h.symm)
+          (fun k hk => by rw [List.mem_singleton.mp hk]; exact h2)
+      · rw [if_neg hc]; exact stage1_sendNil
 
 theorem ttuL_stage1 (w : World) (f : Filter) (o ts cr : String) : Stage1E (luSys w f) (ttuL w o ts cr) := by
   unfold ttuL
@@ -301,22 +284,13 @@ theorem directL_stage2 (w : World) (f : Filter) (hw : WildOK w f) (o r : String)
     by_cases hu : isUserset t.user = true
     · rw [if_pos hu]; exact .node _
     · rw [if_neg hu]
-      by_cases ht : userType t.user = f.typ
-      · rw [if_pos ht]
-        have hs : Stage2E (luSys w f) (.send [t.user]) :=
-          .send _ (fun k hk hwild => by
-            rw [List.mem_singleton.mp hk] at hwild ⊢
-            exact hw.tuples t (mem_readTuples htc) (by simpa using hu) ht hwild)
-        by_cases hr : f.rel = ""
-        · rw [if_pos hr]; exact hs
-        · rw [if_neg hr]
-          refine .bag _ _ ?_
-          intro e' he'
-          simp only [List.mem_cons, List.not_mem_nil, or_false] at he'
-          rcases he' with rfl | rfl
-          · exact hs
-          · exact .note _
-      · rw [if_neg ht]; exact stage2_sendNil
+      by_cases hc : (decide (userType t.user = f.typ) && decide (f.rel = "")) = true
+      · rw [if_pos hc]
+        simp only [Bool.and_eq_true, decide_eq_true_eq] at hc
+        exact .send _ (fun k hk hwild => by
+          rw [List.mem_singleton.mp hk] at hwild ⊢
+          exact hw.tuples t (mem_readTuples htc) (by simpa using hu) hc.1 hwild)
+      · rw [if_neg hc]; exact stage2_sendNil
 
 theorem ttuL_stage2 (w : World) (f : Filter) (o ts cr : String) : Stage2E (luSys w f) (ttuL w o ts cr) := by
   unfold ttuL
